@@ -66,6 +66,7 @@ class TlcResult:
             self.violated = ["temporal"]
         self.violated = [v or "temporal" for v in self.violated]
         self.error = "Error:" in out and not self.violated
+        self.tagfile = None      # file with the printed schedules / sequences (run_tlc)
 
     def coverage(self) -> dict[str, int]:
         """Per-action distinct/total counts from -coverage output: <Action line ..>: distinct:total"""
@@ -107,16 +108,72 @@ def run_tlc(
     e = dict(os.environ)
     e.update(env or {})
     t0 = time.time()
-    try:
-        p = subprocess.run(cmd, cwd=specdir, env=e, capture_output=True, text=True, timeout=timeout)
-        out, rc = p.stdout + p.stderr, p.returncode
-    except subprocess.TimeoutExpired as ex:
-        out = (ex.stdout or b"").decode(errors="replace") if isinstance(ex.stdout, bytes) else (ex.stdout or "")
-        out += "\nTLC-TIMEOUT"
-        rc = 124
-    finally:
-        shutil.rmtree(meta, ignore_errors=True)
-    return TlcResult(out, rc, time.time() - t0)
+    # TLC's output goes to a file: the printed schedules / input sequences (one quoted string per line, millions of lines in
+    # the thorough tier) stay on disk (TlcResult.tagfile) and are sampled from there; everything else is TlcResult.out
+    rawfile = wd / f"{module}.{uuid.uuid4().hex[:8]}.tlcout"
+    timed_out = False
+    with open(rawfile, "w") as fo:
+        proc = subprocess.Popen(cmd, cwd=specdir, env=e, stdout=fo, stderr=subprocess.STDOUT, text=True)
+        try:
+            rc = proc.wait(timeout=timeout)
+        except subprocess.TimeoutExpired:
+            proc.kill()
+            proc.wait()
+            rc, timed_out = 124, True
+    shutil.rmtree(meta, ignore_errors=True)
+    tagfile = wd / (rawfile.name + ".tagged")
+    keep: list[str] = []
+    ntag = 0
+    with open(rawfile, errors="replace") as fi, open(tagfile, "w") as ft:
+        for line in fi:
+            if line.startswith(TAGGED):
+                ft.write(line)
+                ntag += 1
+            else:
+                keep.append(line)
+    rawfile.unlink()
+    out = "".join(keep) + ("\nTLC-TIMEOUT" if timed_out else "")
+    res = TlcResult(out, rc, time.time() - t0)
+    if ntag:
+        res.tagfile = tagfile
+    else:
+        tagfile.unlink()
+    return res
+
+
+TAGGED = ('"SOLO', '"SCHED', '"VSOLO')
+
+
+def tagged_lines(r: "TlcResult", tag: str, limit: int | None = None, rng=None, dedupe: bool = False) -> tuple[list[str], int]:
+    """The lines `"<tag>...` TLC printed (PrintT(tag \\o ToJson(v)): one quoted string per line), read from the file they
+    were kept in; optionally without duplicates and as a uniform seeded sample of `limit`.  -> (lines, number before sampling)"""
+    import hashlib
+    f = getattr(r, "tagfile", None)
+    if f is None:
+        return [], 0
+    pre = '"' + tag + "{"
+    idx: list[int] = []
+    seen: set[bytes] = set()
+    with open(f) as fi:
+        for i, line in enumerate(fi):
+            if not line.startswith(pre):
+                continue
+            if dedupe:
+                h = hashlib.md5(line.encode()).digest()
+                if h in seen:
+                    continue
+                seen.add(h)
+            idx.append(i)
+    total = len(idx)
+    if limit is not None and rng is not None and total > limit:
+        idx = sorted(rng.sample(idx, limit))
+    want = set(idx)
+    out = []
+    with open(f) as fi:
+        for i, line in enumerate(fi):
+            if i in want:
+                out.append(line)
+    return out, total
 
 
 def tla_chunks(txt: str, tag: str) -> list[str]:
